@@ -36,6 +36,22 @@ PROPS["C18"] = dict(
 )
 
 
+PROPS["C20"] = dict(
+    lean_targets=["Chihaya.Props.C20"],
+    props_files=["Chihaya/Props/C20.lean"],
+    gen=["validate"],
+    facts=["validated_config_use"],
+    streams=[dict(name="C20", quick=8000, thorough=300000)],
+    rule="cases: the four real Config.Validate methods on boundary products (min, -1, 0, 1, typical, MaxInt/2, MaxInt/2+1, max per field) and random values, "
+         "validated twice; registry lookups of known/unknown hook and store names; Redis URL strings; stores constructed from out-of-range "
+         "configurations and then used; non-trivial = at least one field defaulted / a refusal / a non-default db (tag != kept), distinct op lines",
+    trusted=["Gen/Validate.lean is produced by harness/tr from the four Validate methods on every run (field-wise form justified by checks in the translator)",
+             "fact extractor validated_config_use (go/ast): constructors never touch the unvalidated parameter again",
+             "modelled not verified: yaml decoding, url.Parse (its results are passed to the model), strconv.Atoi"],
+    assumptions=["uint32 fields are modelled as Int; the harness only supplies values in range"],
+)
+
+
 def run_gen(name, repo, lean, work, goenv):
     """regenerate lean/Chihaya/Gen/<Name>.lean from the current source"""
     tr = os.path.join(work, "tr")
@@ -56,7 +72,24 @@ def run_gen(name, repo, lean, work, goenv):
 
 
 def run_fact(name, repo, root, work, goenv):
-    return True, ""
+    """extract facts from the current source and compare one of them with facts/expected/<name>.json"""
+    import json
+    tr = os.path.join(work, "tr")
+    if not os.path.exists(tr):
+        p = subprocess.run(["go", "build", "-o", tr, "./tr"], cwd=os.path.join(root, "harness"), env=goenv,
+                           stdout=subprocess.PIPE, stderr=subprocess.STDOUT, text=True)
+        if p.returncode != 0:
+            return False, "fact extractor does not build: " + p.stdout[-1500:]
+    out = os.path.join(work, "facts.json")
+    if not os.path.exists(out):
+        p = subprocess.run([tr, "facts", repo, out], stdout=subprocess.PIPE, stderr=subprocess.STDOUT, text=True)
+        if p.returncode != 0:
+            return False, "fact extractor failed: " + p.stdout[-1500:]
+    got = json.load(open(out)).get(name)
+    want = json.load(open(os.path.join(root, "facts", "expected", name + ".json")))
+    if got == want:
+        return True, "as expected"
+    return False, "fact %s differs from facts/expected/%s.json:\n got  %s\n want %s" % (name, name, json.dumps(got, sort_keys=True), json.dumps(want, sort_keys=True))
 
 
 def context_of(stream, ops, i):
@@ -73,7 +106,7 @@ def context_of(stream, ops, i):
     return list(reversed(ctx))
 
 
-STATELESS = {"benc", "vi"}
+STATELESS = {"benc", "vi", "cfg"}
 
 
 def oracle(pid, stream, op, impl, model):
